@@ -15,7 +15,7 @@ func registerC13() {
 		Level: "exploration",
 		Rule: "PRNG interleavings of definition and data records over up to 16 local message types: redefinitions switching message, field list, sizes and byte order, the same " +
 			"message defined differently in two slots, compressed-timestamp records addressing slots 0-3 while other slots hold other definitions, developer-data definitions, and " +
-			"(1.5% per step) a data record on an undefined slot, which must be rejected with the records before it kept; every message carries a unique serial number; family chain-slots: chains of 2-3 files through DecodeChained in which a later file uses a " +
+			"(1.5% per step) a data record on an undefined slot, which must be rejected with the records before it kept; every message carries a unique serial number; family long: streams of 1500-5000 records with 50% redefinitions of up to 12 fields (thousands of definitions and more than 10000 field definitions in one file) in which early definitions stay in use to the end; family chain-slots: chains of 2-3 files through DecodeChained in which a later file uses a " +
 			"local type that only an earlier file defined (definitions end with their file: must be rejected) or redefines the earlier file's slots differently; a case is " +
 			"non-trivial when at least two slots were live and one redefinition or an undefined-slot record occurred; distinct by stream digest",
 		Assume: []string{
@@ -25,6 +25,7 @@ func registerC13() {
 		MinNontrivial: 500,
 		Families: []lib.Family{
 			{Name: "interleave", N: func(t string) uint64 { return tierN(t, 100000, 2000000) }, Run: c13Case},
+			{Name: "long", N: func(t string) uint64 { return tierN(t, 250, 10000) }, Run: c13Long},
 			{Name: "chain-slots", N: func(t string) uint64 { return tierN(t, 10000, 300000) }, Run: c13Chain},
 		},
 	})
@@ -244,4 +245,41 @@ func c13Chain(c *lib.Ctx, idx uint64) {
 	}
 	c.Count("chains_with_independent_slots", 1)
 	c.Nontrivial(chain)
+}
+
+// c13Long: very many redefinitions in one file; slots defined early and never redefined must still
+// decode by their definition at the very end.
+func c13Long(c *lib.Ctx, idx uint64) {
+	rng := lib.NewRand("C13.long", idx)
+	ft := lib.FileTypes[idx%uint64(len(lib.FileTypes))].Type
+	o := lib.GenOpts{FileType: ft, Mesgs: lib.HostedMesgs(ft), Records: 40, Locals: 16, Redefine: 5, BigEndian: 50, Serial: true, MaxFields: 12, Unknown: 10}
+	g := lib.NewPlanGen(rng, o)
+	g.Fill() // slots 0..15 get their early definitions
+	// churn on slots 0-7 only; slots 8-15 keep their early definitions
+	g.O.Locals = 8
+	g.O.Redefine = 50
+	g.O.Records = 1500 + rng.Intn(3500)
+	g.Fill()
+	// and now data on every slot again
+	g.O.Locals = 16
+	g.O.Redefine = 0
+	g.O.Records = 60
+	plan := g.Fill()
+	ndefs, nfd := 0, 0
+	for _, r := range plan.Records {
+		if r.IsDef {
+			ndefs++
+			nfd += len(r.Fields)
+		}
+	}
+	ex, _, ok := checkPlanDecode(c, plan, "long_", true)
+	if !ok || ex == nil {
+		return
+	}
+	c.Count("long_streams", 1)
+	c.Count("long_definitions", int64(ndefs))
+	c.Count("long_field_definitions", int64(nfd))
+	if nfd > 4096 {
+		c.Count("long_streams_with_more_than_4096_field_definitions", 1)
+	}
 }
